@@ -1,6 +1,6 @@
 (* C06 — Picture headers are parsed field-for-field as H.263 and Sorenson define them. *)
 From H263V Require Import base.Prelude model.Types model.Reader model.Header spec.SpecHeader
-  proofs.HeaderLemmas proofs.HeaderRoundTrip proofs.PlusRoundTrip.
+  proofs.HeaderLemmas proofs.HeaderRoundTrip proofs.PlusRoundTrip proofs.HeaderReject.
 
 (* Sorenson Spark: for EVERY combination of version, temporal reference, size code (8- and 16-bit custom
    sizes, five fixed sizes, reserved), picture type, deblocking flag, quantizer and extra-information bytes,
@@ -42,6 +42,24 @@ Theorem C06_plus_inherits : forall h prev scal rest pos,
                = Ok (Some (picture_of_plus0 scal (inherited prev) h), mkReader rest pos').
 Proof. exact plus0_roundtrip. Qed.
 
+(* wrong fixed marker bits are rejected, whatever the other bits are: PTYPE bits 1-2 ('10'), source format '000',
+   reserved UFEP values, the last four bits of OPPTYPE ('1000'), the last three of MPPTYPE ('001'), bit 14 of CPFMT,
+   PAR code 0 *)
+Theorem C06_markers_rejected :
+  (forall r hi r', read_u8 r = Ok (hi, r') -> Z.land hi 192 <> 128 -> decode_ptype r = Err EInvalidPType) /\
+  (forall r hi r', read_u8 r = Ok (hi, r') -> Z.land hi 7 = 0 -> decode_ptype r = Err EInvalidPType) /\
+  (forall o po r u r', read_bits 8 3 r = Ok (u, r') -> u <> 0 -> u <> 1 -> decode_plusptype o po r = Err EInvalidPlusPType) /\
+  (forall o po r r' opp r'', read_bits 8 3 r = Ok (1, r') -> read_bits 32 18 r' = Ok (opp, r'') -> Z.land opp 15 <> 8 ->
+     decode_plusptype o po r = Err EInvalidPlusPType) /\
+  (forall o po r r' mpp r'', read_bits 8 3 r = Ok (0, r') -> read_bits 16 9 r' = Ok (mpp, r'') -> Z.land mpp 7 <> 1 ->
+     decode_plusptype o po r = Err EInvalidPlusPType) /\
+  (forall r c r', read_bits 32 23 r = Ok (c, r') -> Z.land c 512 = 0 -> decode_cpfmt r = Err EPictureFormatInvalid) /\
+  (forall r c r', read_bits 32 23 r = Ok (c, r') -> Z.shiftr (Z.land c 7864320) 19 = 0 -> decode_cpfmt r = Err EPictureFormatInvalid).
+Proof.
+  exact (conj ptype_marker_rejected (conj ptype_format_zero_rejected (conj ufep_reserved_rejected (conj opptype_marker_rejected
+         (conj mpptype_marker_rejected (conj cpfmt_marker_rejected cpfmt_par_zero_rejected)))))).
+Qed.
+
 (* the temporal reference of every parsed header lies in 0..1023 *)
 Theorem C06_tr_range : forall o prev r p r',
   decode_picture o prev r = Ok (Some p, r') -> 0 <= temporal_reference p < 1024.
@@ -63,4 +81,5 @@ Print Assumptions C06_sorenson_roundtrip.
 Print Assumptions C06_baseline_roundtrip.
 Print Assumptions C06_plus_roundtrip.
 Print Assumptions C06_plus_inherits.
+Print Assumptions C06_markers_rejected.
 Print Assumptions C06_tr_range.
